@@ -51,7 +51,7 @@ func replay(path string) {
 		case "prov.valid":
 			f := lib.Fields(c[2])
 			validCase(lib.ParseI(f[0]), lib.ParseI(f[1]), lib.ParseI(f[2]), lib.ParseI(f[3]), lib.ParseI(f[4]), lib.ParseI(f[5]))
-		case "prov.hist":
+		case "prov.hist", "prov.long":
 			ns := parseNodes(c[2])
 			t0 := lib.ParseI(ns[0].atom)
 			var ops []opSpec
@@ -62,7 +62,7 @@ func replay(path string) {
 					ops = append(ops, opSpec{get: true, t: o.i(1), id: o.i(2)})
 				}
 			}
-			runHist(t0, fixedScript(ops), "replay")
+			runHistKind(c[0], t0, fixedScript(ops), "replay")
 		case "prov.conc":
 			ns := parseNodes(c[2])
 			t0 := lib.ParseI(ns[0].atom)
